@@ -156,20 +156,67 @@ def evaluate_quic(code):
     return {"sig": sig, "detail": f"{code:04X} -> {got} exc={exc}", "nontrivial": True, "key": "q%d" % code, "labels": ["quic-accepted"]}
 
 
+def use_specs():
+    """every (table suite, version it is valid for, encrypt-then-MAC where applicable) and the four QUIC suites"""
+    out = [{"tls": list(c)} for c in tlsref.all_combos()]
+    out += [{"quic": c} for c in (0x1301, 0x1302, 0x1303, 0x1304)]
+    return out
+
+
+def evaluate_after_use(spec):
+    """a connection negotiating the suite is decrypted by the whole tool (in this process); afterwards every accepted code point - the
+    one just used first - must still resolve to what its name denotes, and the QUIC resolver to its four suites: what a connection did
+    with the resolved parameters must not reach the next resolution"""
+    import oracle
+    import scenario
+    from tlexport.cipher_suite_parser import split_cipher_suite, cipher_suites
+    ep = {"v6": False, "cmac": "020000000011", "smac": "020000000012", "sport": 443, "cport": 41000, "cip": "10.9.8.7", "sip": "192.168.200.9"}
+    if "tls" in spec:
+        code, ver, etm = spec["tls"]
+        conn = {"kind": "tls", "version": ver, "suite": code, "etm": bool(etm), "seed": 1400 + code, "ep": ep, "history": [[0, 70, 0], [1, 200, 0], [0, 1, 0]]}
+        used = code
+    else:
+        used = spec["quic"]
+        conn = {"kind": "quic", "suite": used, "seed": 1400 + used, "ep": ep,
+                "steps": [{"op": "data", "d": 0, "pk": [{"fr": [["stream", 0, 40, None, False, True, None]], "gap": 0, "pnl": 0}]},
+                          {"op": "data", "d": 1, "pk": [{"fr": [["stream", 0, 60, None, False, True, None]], "gap": 0, "pnl": 0}]}]}
+    b = scenario.build({"conns": [conn, dict(conn, seed=conn["seed"] + 7, ep=dict(ep, cport=41001))], "order": [0, 1], "tseed": 3})
+    o = oracle.run_e2e(b, engine.workdir())
+    f = oracle.base_failure(o)
+    labels = ["after-use", "used:" + ("quic" if "quic" in spec else "tls-%04x" % spec["tls"][1])]
+    if f or not o.pkts:
+        return {"sig": "after use: the connection that was to use the suite is not exported (" + str(f) + ")", "detail": str(spec), "nontrivial": True,
+                "labels": labels}
+    order = [used] + sorted(int.from_bytes(k, "big") for k in cipher_suites if int.from_bytes(k, "big") != used)
+    for code in order:
+        r = _judge(code, split_cipher_suite(code.to_bytes(2, "big")))
+        if r["sig"]:
+            return {"sig": "after a connection used a suite: " + r["sig"], "detail": f"used {used:04X}; {r.get('detail')}", "nontrivial": True,
+                    "labels": labels}
+    for code in (0x1301, 0x1302, 0x1303, 0x1304, used):
+        r = evaluate_quic(code)
+        if r["sig"]:
+            return {"sig": "after a connection used a suite: " + r["sig"], "detail": f"used {used:04X}; {r.get('detail')}", "nontrivial": True,
+                    "labels": labels}
+    return {"sig": None, "nontrivial": True, "key": "use%s" % spec, "labels": labels, "evals": 1 + len(order) + 5}
+
+
 def stages(tier):
     evaluate.__wrapped__ = _judge
+    u = Stage("resolution-after-use", evaluate_after_use, specs=use_specs())
     a = Stage("all-code-points", evaluate, specs=list(range(65536)), chunksize=2048)
     d = Stage("all-code-points-descending", evaluate, specs=list(range(65535, -1, -1)), chunksize=2048)
     h = Stage("call-histories", evaluate_history, strategy=history_strategy, examples=4000 if tier == "quick" else 200000)
     b = Stage("quic-resolver-all-code-points", evaluate_quic, specs=list(range(65536)), chunksize=2048)
-    return [a, d, b, h]
+    return [a, d, b, h, u]
 
 
 
 
 RULE = ("all 65536 two-byte code points are enumerated (ascending and descending, each resolved twice in a row) for the suite resolver and once "
         "for the QUIC session's resolver, plus Hypothesis call histories (accepted / neighbouring / registered-but-unsupported / random code "
-        "points with immediate and later repeats) in which every call must give the stateless answer; oracle = "
+        "points with immediate and later repeats) in which every call must give the stateless answer; stage resolution-after-use: after the whole tool decrypted two connections "
+        "negotiating a suite (every table suite x version x encrypt-then-MAC, 4 QUIC suites) every accepted code point is resolved again; oracle = "
         "independent registry copy (data/iana_tls_cipher_suites.json) + independent name parser (lib/tlsref.Suite); non-trivial = "
         "accepted code points (each distinct)")
 ASSUMPTIONS = ["data/iana_tls_cipher_suites.json is a faithful copy of the IANA registry for the code points TLExport accepts (compiled from "
